@@ -24,7 +24,8 @@ RULE = ("Generated scenarios (Hypothesis; exhaustive product for n<=2 files in t
         "flush via an overflowing operation} x n in 1..4 files, each with a role {modified, read-only, "
         "untouched}, an initial state {existing, absent: the outside change then CREATES it} and an outside "
         "change {before its first buffered access, after it, never}; access "
-        "order, position of the 'after' change and exit order are generated. The outside writer always "
+        "order, position of the 'after' change and exit order are generated; a file may have a SECOND "
+        "object bound to it that only reads (so two collections are registered for one buffer entry). The outside writer always "
         "changes (size, mtime_ns). Oracle: conflict set = modified AND changed-after; a per-object "
         "exit raises MetadataError exactly for conflicting files; the backend-wide exit (or the "
         "forcing call) raises BufferedError whose .files are exactly the conflict set and nothing if it "
@@ -99,6 +100,12 @@ def run_case(case):
             res.append(r)
             objs.append(cls(filename=r.path))
             model.append(init)
+        # a second object on the same file, registered with the buffer by a read (class-wide kinds)
+        twins = {i: cls(filename=res[i].path) for i, f in enumerate(files)
+                 if f.get("twin") and ctxk != "obj" and f["role"] != "untouched"}
+        if ctxk == "cls_cap" and case.get("outer_cap") is not None:
+            # the class-wide capacity in force around the context is small
+            cls.set_buffer_capacity(case["outer_cap"])
         cap0 = cls.get_buffer_capacity()
         n = len(files)
         forced = ctxk.startswith("forced")
@@ -142,6 +149,10 @@ def run_case(case):
                 got = _read(objs[i], kind)
                 if got != model[i]:
                     raise Mismatch("buffered_read", file=i, got=got, expected=model[i])
+            if i in twins and f["role"] != "untouched":
+                got = _read(twins[i], kind)
+                if got != model[i]:
+                    raise Mismatch("buffered_read_through_second_object", file=i, got=got, expected=model[i])
             if f["change"] == "after" and f["role"] != "untouched":
                 if f.get("late"):
                     pending_after.append(i)
@@ -317,8 +328,9 @@ def _nt(case):
 
 def _vector(case):
     return (case["class"], case["ctx"], tuple((f["role"], f["change"], f.get("rank", 0), f.get("xrank", 0),
-                                                bool(f.get("late")), bool(f.get("read_first")), bool(f.get("absent")))
-                                               for f in case["files"]), case.get("trigger", 0))
+                                                bool(f.get("late")), bool(f.get("read_first")), bool(f.get("absent")),
+                                                bool(f.get("twin")))
+                                               for f in case["files"]), case.get("trigger", 0), case.get("outer_cap"))
 
 
 def _draw_case(draw, cname):
@@ -333,10 +345,12 @@ def _draw_case(draw, cname):
             "late": draw(st.booleans()),
             "read_first": draw(st.booleans()),
             "absent": draw(st.integers(0, 3)) == 0,
+            "twin": draw(st.integers(0, 3)) == 0,
         })
     return {"property": ID, "engine": "c07", "class": cname, "ctx": draw(st.sampled_from(CTX)),
             "files": files, "trigger": draw(st.integers(0, 3)), "cap": draw(st.sampled_from([10**9, 10**6])),
-            "observe_between": draw(st.booleans())}
+            "observe_between": draw(st.booleans()),
+            "outer_cap": draw(st.sampled_from([None, None, 0, 1, 40]))}
 
 
 def run_shard(spec, seed, tier, active):
